@@ -905,6 +905,36 @@ def sanitize_string_doc(mode, d):
     return d
 
 
+EMPTY_SET_STYLES = ("omitempty", "emptyseg", "emptyoptions")
+
+
+def fix_tags(t):
+    """tag texts written in a style, and keys that default to the Go field name, are derived from
+    (position, key, options) — also after a shrinking step changed them"""
+    k = t["k"]
+    if k in ("ptr", "slice", "map"):
+        return fix_tags(t["e"])
+    if k != "struct":
+        return
+    for idx, f in enumerate(t["f"]):
+        if f.get("keyless"):
+            f["key"] = "F%d" % idx
+        if f.get("style") or f.get("keyless"):
+            style = f.get("style") or "plain"
+            if style in EMPTY_SET_STYLES and f["o"] is None:
+                f["o"] = O()
+            if style == "emptyoptions" and f["o"]["options"]:
+                f["o"]["options"] = None
+            if f.get("keyless") and f["o"] is None:
+                f.pop("raw", None)
+                f["key"] = "F%d" % idx
+                f["notag"] = True
+            else:
+                f.pop("notag", None)
+                f["raw"] = tag_text("" if f.get("keyless") else f["key"], f["o"], style)
+        fix_tags(f["t"])
+
+
 def finish(c):
     """derive the text sent to the implementation and the document tree given to Coq"""
     mode = c["mode"]
@@ -912,6 +942,7 @@ def finish(c):
         for st in c["steps"]:
             finish(st)
         return c
+    fix_tags(c["type"])
     if mode == "parse":
         rq = c["req"]
         for src, m in (("path", "path"), ("form", "form"), ("header", "header")):
@@ -1441,14 +1472,18 @@ def crosskind(rng, n):
         ({"json": O(opt=True), "form": O(range=R("[1:5]"))}, None),
         ({"json": O(opt=True, dep="zz", neg=True), "form": O(opt=True)}, None),
         ({"json": O(opt=True), "form": None, "path": O(opt=True), "header": None, "key": O(**{"def": "1"})}, None),
+        # a member that only some kinds read: for the others it makes an absent struct value required
+        ({"json": O(opt=True)}, ("json", "form")),
+        ({"form": O(opt=True)}, ("json", "form", "key")),
+        ({"json": O(**{"def": "2"}), "key": O(opt=True)}, ("json", "key", "path")),
     ]
-    for si, (specs, _) in enumerate(shapes):
+    for si, (specs, outer_tags) in enumerate(shapes):
         for ptr in (False, True):
             for order in (0, 1, 2):
                 a = fresh("a")
-                inner = St(multi(a, i, specs))
-                outer = [multi(fresh("in"), Ptr(inner) if ptr else inner, {t: None for t in specs})]
-                tags = list(specs)
+                inner = St(multi(a, i, specs), multi(fresh("o"), i, {t: O(opt=True) for t in (outer_tags or specs)}))
+                outer = [multi(fresh("in"), Ptr(inner) if ptr else inner, {t: None for t in (outer_tags or specs)})]
+                tags = list(outer_tags or specs)
                 if order == 1:
                     tags.reverse()
                 elif order == 2:
@@ -1567,16 +1602,12 @@ def tagsyntax(rng):
                 if o and o["def"] is not None and ("," in o["def"] or " " in o["def"]) and style == "spaces":
                     o["def"] = "dflt"
                 fa = F("a", P(kind), o)
-                fa["raw"] = tag_text("a", o, style)
+                fa["style"] = style
                 if style == "plain":
-                    # the key left out: it defaults to the name of the Go field (F0, F1, ...)
+                    # the key left out: it defaults to the name of the Go field (F0, F1, ...); without
+                    # options there is no tag at all and every unmarshaller kind reads the field
+                    fa["keyless"] = True
                     fa["key"] = "F%d" % (n % 2)
-                    fa["raw"] = tag_text("", o)
-                    if o is None:
-                        continue
-                    if o["opt"] and o["dep"]:
-                        o["dep"] = "b"
-                        fa["raw"] = tag_text("", o)
                 fb = F("b", P("int"), O(opt=True))
                 fields = [fb, fa] if fa["key"] == "F1" else [fa, fb]
                 for intent in ("valid", "valid", "range", "option", None):
@@ -1590,6 +1621,17 @@ def tagsyntax(rng):
                     if rng.random() < 0.5:
                         pairs.append(("b", scalar_for(mode, "1")))
                     cases.append(finish({"mode": mode, "type": St(*copy.deepcopy(fields)), "doc": dobj(pairs), "intent": "tag-" + style}))
+    # the same key-less tag text on fields of different names (the key defaults to each field's own name)
+    for mode in ("json", "form", "key", "header", "path"):
+        for o in (O(opt=True), O(opt=True, range=R("[1:5]")), O(**{"def": "4"}), O(options=["1", "2"])):
+            fs = []
+            for j in range(3):
+                f = F("F%d" % j, P("int"), copy.deepcopy(o))
+                f["keyless"] = True
+                fs.append(f)
+            for supplied in ([0], [1], [2], [0, 2], [1, 2], [0, 1, 2], []):
+                pairs = [("F%d" % j, scalar_for(mode, str(j + 1))) for j in supplied]
+                cases.append(finish({"mode": mode, "type": St(*copy.deepcopy(fs)), "doc": dobj(pairs), "intent": "tag-keyless"}))
     # tags go-zero refuses: every unmarshal of the struct fails, whatever the document holds
     bad_range = {"li": True, "l": None, "r": None, "ri": True}      # the model's ill-formed range
     malformed = ["range=", "range=1:5", "range=[1:5", "range=1:5]", "range=[1:2:3]", "range=[:]", "range=[x:5]", "range=[1:y]",
@@ -1599,6 +1641,7 @@ def tagsyntax(rng):
         mode = ["json", "form", "key", "header", "path", "httpx-json"][mi % 6]
         o = O(range=dict(bad_range))
         fa = F("a", P("int"), o)
+        fa["rawfixed"] = True
         fa["raw"] = "a," + bad + rng.choice(["", ",optional", ",default=3"])
         if "optional" in fa["raw"]:
             o["opt"] = True
@@ -1617,25 +1660,24 @@ def tagsyntax(rng):
     # escapes: a comma inside a default, inside bracketed options
     for mode in ("json", "form", "key"):
         fa = F("a", P("string"), O(**{"def": "x,y"}))
-        fa["raw"] = tag_text("a", fa["o"])
+        fa["style"] = "plain"
         fo = F("o", P("string"), O(opt=True, options=["p,q", "r"]))
+        fo["rawfixed"] = True
         fo["raw"] = "o,optional,options=[p\\,q,r]"
         for pairs in ([], [("a", scalar_for(mode, "z"))], [("o", ds("p,q") if mode != "form" else {"a": [ds("p,q")]})],
                       [("o", ds("p") if mode != "form" else {"a": [ds("p")]})]):
             cases.append(finish({"mode": mode, "type": St(copy.deepcopy(fa), copy.deepcopy(fo)), "doc": dobj(pairs), "intent": "tag-escape"}))
     # an empty alternative among the options; options with spaces and non-ASCII letters
-    for mode in ("json", "key", "path", "header"):
+    for mode in ("json", "key", "path", "header", "httpx-form", "form", "httpx-header"):
         for opts in (["x", "", "y"], ["a b", "\u00fc", "\u4e2d"], ["", "z"], ["1", "1.0", "+1"]):
-            o = O(options=opts)
+            o = O(options=opts, opt=mode.startswith("httpx"))
             fa = F("a", P("string"), o)
-            for word in opts + ["nope", "", " "]:
-                if word == "" and mode in ("httpx-form",):
-                    continue
+            for word in opts + ["nope", "", " ", "\t", "  "]:
                 cases.append(finish({"mode": mode, "type": St(copy.deepcopy(fa)), "doc": dobj([("a", ds(word))]), "intent": "tag-options"}))
     return cases
 
 
-BOUNDARY_TEXTS = ["-0", "+5", " 5", "5 ", "05", "0x10", "0o7", "0b1", "1_000", "1e2", "1E2", ".5", "5.", "00", "-", "+", "",
+BOUNDARY_TEXTS = [" ", "  ", "\t", "\u00a0", "\u3000", "-0", "+5", " 5", "5 ", "05", "0x10", "0o7", "0b1", "1_000", "1e2", "1E2", ".5", "5.", "00", "-", "+", "",
                   "\u0663", "١٢", "1e400", "-1e400", "3.5e38", "-3.5e38", "NaN", "nan", "Inf", "-Inf", "+Inf",
                   "infinity", "+Infinity", "-infinity", "INF", "iNf", "infinit", "1e", "e5", "--1", "+-1", "1.2.3", "0.0", "-0.0",
                   "+0", "9223372036854775807", "9223372036854775808", "-9223372036854775808", "-9223372036854775809",
@@ -2056,6 +2098,10 @@ class C08(Property):
                     "(verdicts: %s)" % [o["verdict"] for o in obs["steps"]])
         if obs["verdict"] == "panic":
             return "the unmarshaller panicked: %s" % obs.get("err", "")
+        if case.get("validator") or case.get("self_validator"):
+            return ("httpx.Parse with a request validator: the verdict / the validator call does not follow from the passes "
+                    "(verdict %s, validator %s, ran: %s): %s" % (obs["verdict"], case.get("validator") or case.get("self_validator"),
+                                                                 obs.get("called"), obs.get("err", "")))
         if obs["verdict"] == "ok":
             return ("input was accepted although a declared constraint does not hold (or the decoded value is not the "
                     "supplied one with defaults); tag of first field: %s" % obs.get("tag", ""))
@@ -2126,7 +2172,7 @@ class C08(Property):
                         c["doc"]["o"] = [kv for kv in c["doc"]["o"] if kv["k"] != key]
                 variant(rm)
                 o = fields[i]["o"]
-                if o:
+                if o and not fields[i].get("rawfixed"):
                     for comp, empty in (("opt", False), ("def", None), ("range", None), ("options", None), ("str", False)):
                         if o[comp]:
                             def drop(c, path=path, i=i, comp=comp, empty=empty):
